@@ -37,7 +37,10 @@ def parse(data, allow_custom=False, interoperability=False, version=None):
     obj = _get_dict(data)
 
     # convert dict to full python-stix2 obj
-    obj = dict_to_stix2(obj, allow_custom, interoperability, version)
+    try:
+        obj = dict_to_stix2(obj, allow_custom, interoperability, version)
+    except RecursionError as e:
+        raise ParseError("Can't parse object: it is nested too deeply") from e
 
     return obj
 
